@@ -29,7 +29,7 @@ CLAIMS.update({
          "calculus and driver soundness are proved once for source and target. For the sequential integer core with try/undo and defeat "
          "calls the compiled code is PROVED to realise the undo semantics end to end (core_try_undo_correct: the Turing jump over the "
          "try body is taken exactly when the body would be defeated; model identical to the real compiler's output, checked every run), "
-         "and so is try/stop with !is_defeat(), !truth_is_defeat(c) and calls of defeat functions (defeat reached any number of frames down) under any control flow (core_try_stop_correct: variable defeat handler, the body's effects up "
+         "and so is try/stop with !is_defeat(), !truth_is_defeat(c) and calls of defeat functions from try/stop and try/undo bodies (defeat reached any number of frames down) under any control flow (core_try_stop_correct: variable defeat handler, the body's effects up "
          "to the defeat call kept, fp/ap restored in the handler). Exits out of try/stop bodies (return/break/continue), "
          "preempt, ??, defeat functions and histories of try blocks in whole programs are validated differentially (history "
          "templates, defeat inside defeat functions, ?? into globals).", "machine-checked proof (Lean 4) of the construct laws + differential validation", "6 C02"),
